@@ -16,7 +16,7 @@ DescriptorDeterminesInput == LayOf(kind, base, hist) = lay /\ PostOf(hist) = pos
 \* M4 carries a record of a type whose RDATA grammar the specification does not know)
 BaseAccepted == (kind = "msg" /\ nf = 0) =>
                     \A o \in AllOpts : StrictVerdict(Read(W), o) = (IF base = "M3" /\ o[3] = 0 THEN "err"
-                                                                   ELSE IF base = "M4" /\ o[3] = 0 THEN "free"
+                                                                   ELSE IF base \in {"M4", "M6"} /\ o[3] = 0 THEN "free"
                                                                    ELSE IF base = "M5" /\ o[5] = 1 THEN "trunc" ELSE "ok")
 \* a truncated valid message is never accepted by a strict reading of all sections
 TruncationRefused == (kind = "msg" /\ nf = 1 /\ post[1] = "trunc") =>
